@@ -301,6 +301,15 @@ class Context:
 
         def get_prototype_of(*args):
             obj = args[0] if args else UNDEFINED
+            if isinstance(obj, JSFunction):
+                # Every function inherits from Function.prototype
+                function_constructor = self._globals.get("Function")
+                proto = (
+                    function_constructor.get("prototype")
+                    if isinstance(function_constructor, JSObject)
+                    else None
+                )
+                return proto if isinstance(proto, JSObject) else NULL
             if not isinstance(obj, JSObject):
                 return NULL
             return getattr(obj, "_prototype", NULL) or NULL
@@ -1085,7 +1094,7 @@ class Context:
         fn_constructor = JSCallableObject(function_constructor_fn)
 
         # Function.prototype - add basic methods
-        fn_prototype = JSObject()
+        fn_prototype = JSObject(self._object_prototype)
 
         # These are implemented in VM's _get_property for JSFunction
         # but we still set them here for completeness
